@@ -313,7 +313,11 @@ class ProvXMLSerializer(Serializer):
                 continue
             if isinstance(value, prov.model.Literal):
                 value = value.value
-            if value in PROV_BASE_CLS and PROV_BASE_CLS[value] != value:
+            if (
+                value in PROV_BASE_CLS
+                and PROV_BASE_CLS[value] != value
+                and PROV_BASE_CLS[value] == rec_type
+            ):
                 attributes.remove((key, value))
                 rec_label = FULL_NAMES_MAP[value]
                 break
